@@ -205,6 +205,11 @@ func c17Server(r *Run) {
 		cfg := baseConfig(conn)
 		cfg.PublicIP = ip
 		cfg.NoSecurity = r.rng.Intn(2) == 0
+		ownSocket := i%12 == 5
+		if ownSocket {
+			cfg.Conn = nil // the server opens its own UDP socket (":0"); the ID rule must not depend on who opened it
+		}
+		r.hist(fmt.Sprintf("server-id/own-socket=%v/no-security=%v", ownSocket, cfg.NoSecurity))
 		s, err := dht.NewServer(cfg)
 		if err != nil {
 			r.violation("NewServer failed: "+err.Error(), nil)
@@ -214,7 +219,7 @@ func c17Server(r *Run) {
 		ok := dht.NodeIdSecure(id, ip)
 		r.op("SEC valid "+hx(id[:])+" "+hx(ip), b2s(ok))
 		if !ok {
-			r.violation("server-generated ID does not verify for the configured public IP", map[string]interface{}{"public_ip": hx(ip), "id": hx(id[:]), "no_security": cfg.NoSecurity})
+			r.violation("server-generated ID does not verify for the configured public IP", map[string]interface{}{"public_ip": hx(ip), "id": hx(id[:]), "no_security": cfg.NoSecurity, "server_opened_its_own_socket": ownSocket})
 		}
 		s.Close()
 		r.count("srv"+hx(ip)+hx(id[:]), true)
